@@ -1,4 +1,4 @@
-(* C38: the two refutations on Model/CommitOrder.v (the code as it is, fx = false), as concrete
+(* C38: the two refutations on Model/CommitOrder.v (the code as it is, fx = true), as concrete
    fine-grained runs evaluated by vm_compute. *)
 From Coq Require Import ZArith List Bool.
 From TV Require Import Lib.Interleave Model.GroupCommit Model.CommitOrder.
@@ -13,7 +13,7 @@ Definition w_progs : list (list txn) := [[[(1, 0)]]; [[(1, 1)]]].
    flushes: the log ends with the OLDER image of page 1. *)
 Definition order_sched : list nat := repeat 0%nat 7 ++ repeat 1%nat 30 ++ repeat 0%nat 30.
 Lemma log_order_refuted_l :
-  let s := run (step38 false) order_sched (init38 w_progs) in
+  let s := run (step38 true) order_sched (init38 w_progs) in
   frames s = [(1, 3); (1, 1)] /\ order_ok (frames s) = false /\
   map la_ok (lacks s) = [true; true] /\ all_finished38 s = true /\
   inverted s = true /\ borrowed s = false /\ stolen (sh (base s)) = false.
@@ -24,7 +24,7 @@ Proof. vm_compute. repeat split. Qed.
    A's COMMIT finds no dirty table, skips the WAL commit and returns Ok: the log is empty. *)
 Definition cover_sched : list nat := repeat 0%nat 3 ++ repeat 1%nat 7 ++ repeat 0%nat 5.
 Lemma coverage_refuted_l :
-  let s := run (step38 false) cover_sched (init38 w_progs) in
+  let s := run (step38 true) cover_sched (init38 w_progs) in
   frames s = [] /\ lacks s = [LAck 0%nat 1 [(1, 0)] true 0] /\
   forallb (covered (frames s)) (lacks s) = false /\
   borrowed s = true /\ inverted s = false /\ stolen (sh (base s)) = false.
@@ -33,7 +33,7 @@ Proof. vm_compute. repeat split. Qed.
 (* ... and when everybody has finished the page image with both updates is in the log, but A was
    told Ok before *)
 Lemma coverage_refuted_final_l :
-  let s := run (step38 false) (cover_sched ++ repeat 1%nat 30) (init38 w_progs) in
+  let s := run (step38 true) (cover_sched ++ repeat 1%nat 30) (init38 w_progs) in
   frames s = [(1, 3)] /\ map la_frames (lacks s) = [0; 1] /\ all_finished38 s = true /\
   forallb (covered (frames s)) (lacks s) = false.
 Proof. vm_compute. repeat split. Qed.
